@@ -90,7 +90,8 @@ def gen_cases(tier, seed):
         ign = [] if rng.random() < 0.5 else rng.sample(edges, rng.randint(1, max(1, len(edges) // 3)))
         cases.append({"kind": "prune", "spec": gen.spec(nodes, edges, eattr={e: {"flow": rng.randint(1, 5)} for e in edges}),
                       "cls": rng.choice(["kPathCoverCycles", "kPathCoverCycles", "kMinPathErrorCycles", "kLeastAbsErrorsCycles"]),
-                      "k": rng.randint(1, 4), "ignore": gen.jl(ign), "oo": rng.choice([{}, {"optimize_with_safe_sequences_allow_geq_constraints": False}, {"optimize_with_max_safe_antichain_as_subset_constraints": True}])})
+                      "k": rng.randint(1, 4), "ignore": gen.jl(ign), "oo": rng.choice([{}, {"optimize_with_safe_sequences_allow_geq_constraints": False}, {"optimize_with_max_safe_antichain_as_subset_constraints": True},
+                                        {"optimize_with_safe_sequences_fix_via_bounds": True}, {"optimize_with_safe_sequences_fix_via_bounds": True, "optimize_with_safe_sequences_fix_zero_edges": False}])})
     for i in range(n // 2):
         rng = gen.rng_for("C06m", seed, i)
         nodes, edges = gen.dag_any(rng, 11)
@@ -335,6 +336,24 @@ def run_prune(case, viol, obs):
             viol.append({"sig": "C06/pruned-slot-without-sequence", "msg": f"{(u, v, i)}; {desc}"}); continue
         if ref.exists_walk_with_seq_and_edge(st, st.source, st.sink, wtf[i], (u, v)):
             viol.append({"sig": "C06/pruned-edge-can-cooccur-with-slot-sequence", "msg": f"edge {(u, v)} forbidden in slot {i} but a source-to-sink walk contains {wtf[i]} and uses it; {desc}"})
+    # bound updates queued for the solver (optimize_with_safe_sequences_fix_via_bounds): a variable FIXED to m forbids every further traversal
+    # of that edge in that slot; for an edge inside a strongly connected component a walk that contains the slot's sequence can always go
+    # round once more, so only a lower bound is sound there (and a fix to 0 is judged like edges_set_to_zero)
+    sv = getattr(m, "solver", None)
+    if sv is not None and getattr(sv, "_pending_fix_vars", None):
+        by_index = {getattr(var_, "index", None): key_ for key_, var_ in (getattr(m, "edge_vars", {}) or {}).items()}
+        for var_, val_ in zip(sv._pending_fix_vars, sv._pending_fix_vals):
+            key_ = by_index.get(getattr(var_, "index", None))
+            if key_ is None:
+                continue
+            (u, v, i) = key_
+            obs["c06.queued_fixes_judged"] += 1
+            if i >= len(wtf):
+                continue
+            if val_ >= 1 and st.is_scc_edge(u, v) and ref.exists_walk_with_seq_and_edge(st, st.source, st.sink, wtf[i], (u, v)):
+                viol.append({"sig": "C06/queued-fix-forbids-further-traversals-of-an-SCC-edge", "msg": f"edge {(u, v)} of slot {i} fixed to {val_} (not bounded from below) although walks containing {wtf[i]} can traverse it more often; {desc}"})
+            elif val_ == 0 and ref.exists_walk_with_seq_and_edge(st, st.source, st.sink, wtf[i], (u, v)):
+                viol.append({"sig": "C06/pruned-edge-can-cooccur-with-slot-sequence", "msg": f"edge {(u, v)} fixed to 0 in slot {i} (queued) but a source-to-sink walk contains {wtf[i]} and uses it; {desc}"})
     for (u, v, i) in m.edges_set_to_one:
         obs["c06.fixed_one_judged"] += 1
         if i >= len(wtf) or (u, v) not in wtf[i]:
